@@ -23,10 +23,55 @@ HARNESS = os.path.join(VERIF, "harness")
 NCPU = os.cpu_count() or 4
 
 
-def goenv():
+import threading
+_run_cache = [None]
+_run_cache_lock = threading.Lock()
+
+
+def base_gocache():
+    return subprocess.run(["go", "env", "GOCACHE"], capture_output=True, text=True).stdout.strip() or os.path.expanduser("~/.cache/go-build")
+
+
+def run_gocache():
+    """The Go build cache used for generated packages: a hard-linked copy of the base cache (standard library and
+    dependencies, warmed by bin/setup) that is deleted when the check exits, so that thousands of one-off main
+    packages do not pile up in the user's cache."""
+    with _run_cache_lock:
+        return _run_gocache_locked()
+
+
+def _run_gocache_locked():
+    if _run_cache[0] is None:
+        import atexit
+        base = base_gocache()
+        d = os.path.join(WORK, "gocache.%d" % os.getpid())
+        shutil.rmtree(d, ignore_errors=True)
+        os.makedirs(WORK, exist_ok=True)
+        # stale caches of killed runs
+        for x in os.listdir(WORK):
+            if x.startswith("gocache."):
+                try:
+                    os.kill(int(x.split(".")[1]), 0)
+                except (OSError, ValueError):
+                    shutil.rmtree(os.path.join(WORK, x), ignore_errors=True)
+        if os.path.isdir(base):
+            r = subprocess.run(["cp", "-al", base, d], capture_output=True)
+            if r.returncode != 0:
+                shutil.rmtree(d, ignore_errors=True)
+                shutil.copytree(base, d)
+        else:
+            os.makedirs(d)
+        _run_cache[0] = d
+        atexit.register(lambda: shutil.rmtree(d, ignore_errors=True))
+    return _run_cache[0]
+
+
+def goenv(scoped=True):
     e = dict(os.environ)
     e.update({"GOFLAGS": "-mod=mod", "GOPROXY": "off", "GOSUMDB": "off", "GOTOOLCHAIN": "local",
               "CGO_ENABLED": "0"})
+    if scoped:
+        e["GOCACHE"] = run_gocache()
     return e
 
 
@@ -75,7 +120,7 @@ class Farm:
         marker = os.path.join(self.root, ".ready")
         if os.path.exists(marker):
             return
-        r = subprocess.run(["go", "build", "-o", self.gen, "./cmd/parquetgen"], cwd=REPO, env=goenv(),
+        r = subprocess.run(["go", "build", "-o", self.gen, "./cmd/parquetgen"], cwd=REPO, env=goenv(scoped=False),
                            capture_output=True, text=True)
         if r.returncode != 0:
             raise HarnessError("parquetgen does not build from the working tree:\n" + r.stderr[-3000:])
@@ -88,7 +133,7 @@ class Farm:
         os.makedirs(d, exist_ok=True)
         with open(os.path.join(d, "main.go"), "w") as f:
             f.write('package main\n\nimport (\n\t_ "github.com/parsyl/parquet"\n\t_ "verifharness/pq"\n)\n\nfunc main() {}\n')
-        r = subprocess.run(["go", "build", "-o", os.path.join(d, "warm"), "."], cwd=d, env=goenv(), capture_output=True, text=True)
+        r = subprocess.run(["go", "build", "-o", os.path.join(d, "warm"), "."], cwd=d, env=goenv(scoped=False), capture_output=True, text=True)
         if r.returncode != 0:
             raise HarnessError("farm module does not build:\n" + r.stderr[-3000:])
         open(marker, "w").write("ok")
@@ -102,7 +147,10 @@ class Farm:
         d = self.shape_dir(key) + ("_race" if race else "")
         st = os.path.join(d, "status.json")
         if os.path.exists(st):
-            return json.load(open(st))
+            res = json.load(open(st))
+            if res["status"] != "ok" or os.path.exists(os.path.join(d, "drv")):
+                return res
+            os.remove(st)  # the binary was dropped to save space: compile again
         os.makedirs(d, exist_ok=True)
         with open(os.path.join(d, "rec.go"), "w") as f:
             f.write(src)
@@ -129,7 +177,7 @@ class Farm:
                     f.write(content)
             env = goenv()
             env["GOFLAGS"] = "-mod=readonly"
-            cmd = ["go", "build", "-o", "drv"] + (["-race"] if race else []) + ["."]
+            cmd = ["go", "build", "-ldflags=-s -w", "-o", "drv"] + (["-race"] if race else []) + ["."]
             if race:
                 env["CGO_ENABLED"] = "1"
             r = subprocess.run(cmd, cwd=d, env=env, capture_output=True, text=True)
@@ -176,6 +224,13 @@ class Farm:
         if r.returncode != 0:
             raise HarnessError("harness tool %s does not build against the working tree:\n%s" % (name, r.stderr[-2500:]))
         return exe
+
+    def drop_binary(self, build):
+        """frees the space of a compiled program (it is recompiled on demand)"""
+        try:
+            os.remove(os.path.join(build["dir"], "drv"))
+        except OSError:
+            pass
 
     def build_many(self, items, race=False):
         """items: list of (key, src).  Parallel."""
